@@ -31,27 +31,50 @@ THEOREMS = ['PbBss.C06.' + t for t in [
     # a mixture trainer: the EM loop of GMMTrainer
     'reshape_pair_class_slices', 'gmmMStep_slices', 'gmmPredict_slices', 'gmmFit_slices', 'goodLead_of_check',
     'gmmFit_slices_shaped', 'gmmFitPredict_slices_shaped',
+    # the EM loops of the directional mixture trainers (Model/TensorEm.lean): per-matrix externals with the class axis in
+    # the core, get_pca with its reshapes, VMFMMTrainer / CWMMTrainer / CACGMMTrainer (M-step, E-step, any number of iterations)
+    'mapCore_class_slices', 'getPca_slices',
+    'vmfmmMStep_slices', 'vmfmmPredict_slices', 'vmfmmFit_slices', 'vmfmmFit_slices_shaped', 'vmfmmFitPredict_slices',
+    'vmfmmTrainerFit_slices',
+    'cwmmMStep_slices', 'cwmmPredict_slices', 'cwmmFit_slices', 'cwmmFit_slices_shaped', 'cwmmFitPredict_slices_shaped',
+    'cwmmTrainerFit_slices_shaped',
+    'cacgmmMStep_slices', 'cacgmmPredict_slices', 'cacgmmFit_slices', 'cacgmmFit_slices_shaped', 'cacgmmFitPredict_slices',
+    'cacgmmTrainerFit_slices',
     # singleton leading axes
     'broadcastLead_slices', 'singleton_init_weights',
     # counter-witnesses
     'cumprod_axis0_not_slicewise', 'postInit_without_reshape_back_wrong_shape',
 ]]
 ASSUMPTIONS = [
-    'theorems are about the reversed-index tensor-layer transcriptions in lean/PbBss/Model/Tensor.lean; they are tied to /repo by '
-    'the element-wise correspondence run of the compiled model on full stacked arrays (NumPy semantics of einsum / broadcasting / '
-    'reshape are modelled, not verified); the theorems are structural (no property of the scalar type is used) and therefore hold '
-    'verbatim for the Float instance the driver executes',
+    'theorems are about the reversed-index tensor-layer transcriptions in lean/PbBss/Model/Tensor.lean and Model/TensorEm.lean; they '
+    'are tied to /repo by the element-wise correspondence run of the compiled model on full stacked arrays (NumPy semantics of einsum / '
+    'broadcasting / reshape are modelled, not verified); the theorems are structural (no property of the scalar type is used) and '
+    'therefore hold verbatim for the Float instance the driver executes',
     'transcribed WITH a slice theorem: log_pdf_to_affiliation (mask, clipping, any broadcast weight), estimate_mixture_weight for '
     'weight_constant_axis=(-1,), GaussianTrainer._fit (3 covariance types), the 3 Gaussian log_pdf and __post_init__ (reshape pairs), '
     'GMMTrainer._m_step / GMM.predict / GMMTrainer._fit for any number of iterations, VonMisesFisherTrainer._fit and log_pdf, the '
     'scatter matrix of the complex Gaussian / Watson / Bingham trainers, ComplexWatson.log_pdf, ComplexBingham.log_pdf, cACG '
-    'normalize_observation, _fit up to eigh, eigenvalue normalisation, _log_pdf and the start value of fit',
+    'normalize_observation, _fit up to eigh, eigenvalue normalisation, _log_pdf and the start value of fit; get_pca (reshape(-1,D,D), '
+    'per-matrix eigh, last eigenpair, reshape back); _m_step / predict / _fit (any number of iterations) and the public fit '
+    '(normalisation, default saliency, broadcast_to of the initial affiliation) of VMFMMTrainer, CWMMTrainer and CACGMMTrainer '
+    '(weight_constant_axis=(-1,), covariance_norm=eigenvalue, no inline aligner, no source-activity mask)',
     'NOT transcribed (claim = stacked-vs-slice search on the real code only): ComplexCircularSymmetricGaussian.log_pdf (slogdet / '
-    'solve), get_pca and the concentration spline of the Watson trainer, the eigenvalue solver of the Bingham trainer, the EM loops '
-    'of CACGMMTrainer / CWMMTrainer / CBMMTrainer / VMFMMTrainer (their M-step and E-step building blocks above are), '
-    'weight_constant_axis other than (-1,), inline permutation alignment',
-    'external per-matrix / elementwise routines (sklearn precision Cholesky = parameter `chol`, eigh, hyp1f1, ive, least_squares) are '
-    'assumed to treat the entries of a stack independently; log_norm values of vMF / Watson / Bingham are inputs of the model',
+    'solve), the eigenvalue solver of the Bingham trainer and the EM loop of CBMMTrainer (its M-step and E-step building blocks above '
+    'are), weight_constant_axis other than (-1,), inline permutation alignment, source-activity masks inside the cACGMM loop',
+    'external routines: per-matrix ones (sklearn precision Cholesky = parameter `chol`, np.linalg.eigh = parameter `eigh` of ONE matrix) '
+    'are applied to a stack through `mapCore`, i.e. the model ASSUMES that sklearn / NumPy treat the matrices of a stack independently '
+    '(the theorems then hold for every such routine); elementwise ones (log_norm of vMF / Watson = `lnorm D` via ive / hyp1f1, the '
+    'Watson concentration spline = `kinv`) are arbitrary functions applied with `map` (nothing assumed); least_squares of the Bingham '
+    'trainer is not modelled; log_norm values of the stand-alone vMF / Watson / Bingham log_pdf are inputs of the model',
+    'correspondence of the EM loops: the driver runs vmfmm* / cwmm* / cacgmm* on stacked inputs (1..3 problems on 1..2 leading axes, K 2..3) '
+    'with eigh = its own Jacobi routine (compared gauge-free: projector of the Watson mode, U diag(l) U^H of the cACG; Watson cases whose '
+    'two largest scatter eigenvalues are closer than 1e-4 relative are skipped and counted) and with log_norm / the concentration '
+    'spline given as (argument, value) tables of the REAL calls read at the nearest argument (the model\'s arguments differ from the '
+    'code\'s by rounding only); tolerance 1e-8 per M-step, x10 per further iteration, scaled by 1/eigen-gap (Watson) resp. 1/min '
+    'eigenvalue (cACG), capped at 1e-4',
+    'cwmmFit_slices has a shape hypothesis on the scatter stacks of the iterates (needed by the reshape inside get_pca) which the driver '
+    'checks on every executed case; cwmmFit_slices_shaped discharges it for inputs without broadcasting in the leading axes; the vMF and '
+    'cACG loops need no such hypothesis (no reshape)',
     'gmmFit_slices_shaped assumes inputs without broadcasting in the leading axes (y (*lead,N,D), affiliation (*lead,K,N), saliency '
     '(*lead,N)); the general gmmFit_slices has a shape hypothesis on the iterates which the driver checks on every executed case',
     'search tolerances: closed-form fields 1e-9 relative; one EM iteration 1e-7; several iterations: E-step of the final model 1e-8 '
@@ -814,14 +837,21 @@ def _rev(xs):
     return f'{len(xs)} ' + ' '.join(map(str, xs)) if xs else '0'
 
 
-def _cmp_tensor(ctx, op, line_out, want, detail, data=None, rtol=1e-9, multi=None):
-    """compare the driver's answer (one tensor, or several separated by '|') with NumPy's"""
+def _cmp_tensor(ctx, op, line_out, want, detail, data=None, rtol=1e-9, multi=None, raw=None, canon=None):
+    """compare the driver's answer (one tensor, or several separated by '|') with NumPy's.  `raw`: which of the driver's
+    tensors are complex (default: as the expected ones); `canon`: gauge removal applied to the driver's tensors first
+    (eigenvector phase); `rtol` may be one number or one per output"""
     wants = want if isinstance(want, (list, tuple)) else [want]
     try:
-        gots = tu.parse_tensors(line_out, [np.iscomplexobj(w) for w in wants])
+        gots = tu.parse_tensors(line_out, raw if raw is not None else [np.iscomplexobj(w) for w in wants])
+        if canon is not None:
+            gots = canon(gots)
     except Exception as e:  # noqa
         return ctx.corr(op, False, f'{detail}: unparsable driver answer {line_out[:80]!r} ({e})', data)
-    for i, (g, w) in enumerate(zip(gots, wants)):
+    if len(gots) != len(wants):
+        return ctx.corr(op, False, f'{detail}: {len(gots)} outputs in the model, {len(wants)} expected', data)
+    rtols = rtol if isinstance(rtol, (list, tuple)) else [rtol] * len(wants)
+    for i, (g, w, rtol) in enumerate(zip(gots, wants, rtols)):
         w = np.asarray(w, dtype=np.complex128 if np.iscomplexobj(w) else np.float64)
         if g.shape != w.shape:
             return ctx.corr(op, False, f'{detail}: output {i} has shape {g.shape} in the model, {w.shape} in NumPy', data)
@@ -1015,13 +1045,220 @@ def _corr_directional(ctx, rng, add, cap):
             ctx.count(f'corr-directional-{layout}')
 
 
+class _CaptureIO:
+    """observe argument AND result of an internal call (the external is wrapped, not replaced)"""
+
+    def __init__(self, owner, name, pick=lambda a, k: a[0]):
+        self.owner, self.name, self.pick = owner, name, pick
+        self.seen = []
+
+    def __enter__(self):
+        self.raw = self.owner.__dict__[self.name]
+        self.orig = getattr(self.owner, self.name)
+        orig, seen, pick = self.orig, self.seen, self.pick
+
+        def wrapper(*a, **k):
+            r = orig(*a, **k)
+            seen.append((np.array(pick(a, k), dtype=np.float64, copy=True), np.array(r, dtype=np.float64, copy=True)))
+            return r
+        setattr(self.owner, self.name, wrapper)
+        return self
+
+    def __exit__(self, *exc):
+        setattr(self.owner, self.name, self.raw)
+
+    def table(self):
+        """the graph of the external on the points the real call evaluated: (keys, values), both flat"""
+        if not self.seen:
+            return np.zeros(0), np.zeros(0)
+        return (np.concatenate([np.ravel(k) for k, _ in self.seen]), np.concatenate([np.ravel(v) for _, v in self.seen]))
+
+
+def _top_gap(covs):
+    """smallest relative gap between the two largest eigenvalues over all matrices (conditioning of the principal vector)"""
+    g = 1.0
+    for c in covs:
+        ev = np.linalg.eigvalsh(np.asarray(c))
+        g = min(g, float(np.min((ev[..., -1] - ev[..., -2]) / np.maximum(np.abs(ev[..., -1]), 1e-300))))
+    return g
+
+
+def _em_case(rng, tiny_case, cx):
+    """stacked inputs of one mixture-trainer case: 1..3 problems on 1..2 leading axes (incl. singleton axes), K 2..3"""
+    if tiny_case:
+        lead = tu.lead_shape(rng, max_total=2)
+        K, D = 2, 2
+        N = int(rng.integers(3, 5))
+    else:
+        lead = tu.lead_shape(rng, max_total=3)
+        K, D = int(rng.integers(2, 4)), int(rng.integers(2, 4))
+        N = int(rng.integers(max(K, D) + 2, max(K, D) + 6))
+    y = tu.slice_contents(rng, lead, (N, D), complex_=cx)
+    init = _gen_init(rng, lead, K, N)
+    sal = _gen_saliency(rng, lead, N) if rng.random() < 0.5 else None
+    return lead, K, D, N, y, init, sal
+
+
+def _corr_em_mixtures(ctx, rng, add):
+    """M-step, E-step and the (n+1)-iteration fit of VMFMMTrainer / CWMMTrainer / CACGMMTrainer on stacked inputs against
+    vmfmm* / cwmm* / cacgmm* of Model/TensorEm.lean.  Externals: eigh = the driver's Jacobi routine (compared gauge-free:
+    projector of the Watson mode, U diag(l) U^H of the cACG); log_norm (ive / hyp1f1) and the Watson concentration spline
+    = the values of the REAL calls, handed over as (argument, value) tables read at the nearest argument."""
+    T = tu.ttok
+    fb = tu.fbits
+
+    def TC(x):
+        return tu.ttok(x, complex_=True)
+
+    def opt(x):
+        return f' {T(x)}' if x is not None else ''
+
+    wca = (-1,)
+    # ------------------------------------------------------------------ vMF mixture
+    for i in range(ctx.n(10, 80)):
+        with _guarded(ctx, 'VMFMMTrainer'):
+            tiny_case = rng.random() < 0.2
+            lead, K, D, N, y, init, sal = _em_case(rng, tiny_case, False)
+            yn = y / np.maximum(np.linalg.norm(y, axis=-1, keepdims=True), TINY)
+            sal1 = sal if sal is not None else np.ones(lead + (N,))
+            tr = VMFMM_.VMFMMTrainer()
+            data = {'y': y, 'initialization': init, 'saliency': sal}
+            m0 = tr._m_step(yn, affiliation=init, saliency=sal1, weight_constant_axis=wca, min_concentration=1e-10,
+                            max_concentration=500)
+            add('VMFMMTrainer._m_step', f'vmfmm-mstep {fb([1e-10, 1e-10, 500.0])} {T(yn)} {T(init)} {T(sal1)}',
+                [m0.weight, m0.vmf.mean, m0.vmf.concentration], f'y {y.shape}, K={K}', data, rtol=1e-8)
+            y2 = tu.slice_contents(rng, lead, (N, D))
+            add('VMFMM.predict', f'vmfmm-predict {T(np.ravel(m0.vmf.concentration))} {T(np.ravel(m0.vmf.log_norm()))} '
+                f'{T(m0.weight)} {T(m0.vmf.mean)} {T(m0.vmf.concentration)} {T(y2)}', m0.predict(y2),
+                f'model of one M-step, y {y2.shape}, K={K}', {**data, 'y2': y2}, rtol=1e-8)
+            n = int(rng.integers(0, 2)) if tiny_case else int(rng.integers(0, 3))
+            with _CaptureIO(VMF_.VonMisesFisher, 'log_norm', pick=lambda a, k: a[0].concentration) as capl:
+                m = VMFMM_.VMFMMTrainer().fit(y.copy(), initialization=init.copy(), iterations=n + 1,
+                                              saliency=None if sal is None else sal.copy())
+                post = m.predict(y)
+            keys, vals = capl.table()
+            args = (f'{n} {int(sal is not None)} {fb([1e-10, 1e-10, 500.0])} {T(keys)} {T(vals)} {T(y)} {T(init)}' + opt(sal))
+            tol = 1e-8 * 10.0 ** n
+            fields = [m.weight, m.vmf.mean, m.vmf.concentration]
+            add('VMFMMTrainer.fit', 'vmfmm-fit ' + args, fields + [post], f'{n + 1} iterations, y {y.shape}, K={K}', data, rtol=tol)
+            if tiny_case:
+                add('vmfmmTrainerFit-recursive', 'vmfmm-fit-direct ' + args, fields, f'{n + 1} iterations, y {y.shape}, K={K}',
+                    data, rtol=tol)
+            ctx.count(f'corr-vmfmm-it{n + 1}')
+    # ------------------------------------------------------------------ complex Watson mixture
+    for i in range(ctx.n(10, 80)):
+        with _guarded(ctx, 'CWMMTrainer'):
+            tiny_case = rng.random() < 0.2
+            lead, K, D, N, y, init, sal = _em_case(rng, tiny_case, True)
+            yn = CW_.normalize_observation(y)
+            data = {'y': y, 'initialization': init, 'saliency': sal}
+
+            def canon_w(g):
+                return [g[0], tu.projector(g[1])] + list(g[2:])
+            with _CaptureIO(CW_.ComplexWatsonTrainer, 'hypergeometric_ratio_inverse', pick=lambda a, k: a[1]) as capk, \
+                    _Capture(CW_, 'get_pca') as capp:
+                m0 = CWMM_.CWMMTrainer(dimension=D)._m_step(yn, affiliation=init, saliency=sal, weight_constant_axis=wca)
+            gap = _top_gap(capp.seen)
+            if gap < 1e-4:
+                ctx.count('corr-cwmm-skipped:principal-eigenvalue-not-separated')
+                continue
+            kk, kv = capk.table()
+            w0 = m0.complex_watson
+            add('CWMMTrainer._m_step', f'cwmm-mstep {int(sal is not None)} {fb([1e-10])} {T(kk)} {T(kv)} {TC(yn)} {T(init)}' + opt(sal),
+                [m0.weight, tu.projector(w0.mode), w0.concentration], f'y {y.shape}, K={K}, eigen-gap {gap:.2g}', data,
+                rtol=[1e-8, 1e-9 / gap, 1e-7], raw=[False, True, False], canon=canon_w)
+            y2 = tu.slice_contents(rng, lead, (N, D), complex_=True)
+            add('CWMM.predict', f'cwmm-predict {T(np.ravel(w0.concentration))} {T(np.ravel(w0.log_norm()))} '
+                f'{T(m0.weight)} {TC(w0.mode)} {T(w0.concentration)} {TC(y2)}', m0.predict(y2),
+                f'model of one M-step, y {y2.shape}, K={K}', {**data, 'y2': y2}, rtol=1e-8)
+            n = int(rng.integers(0, 2)) if tiny_case else int(rng.integers(0, 3))
+            with _CaptureIO(CW_.ComplexWatsonTrainer, 'hypergeometric_ratio_inverse', pick=lambda a, k: a[1]) as capk, \
+                    _CaptureIO(CW_.ComplexWatson, 'log_norm', pick=lambda a, k: a[0].concentration) as capl, \
+                    _Capture(CW_, 'get_pca') as capp:
+                m = CWMM_.CWMMTrainer().fit(y.copy(), initialization=init.copy(), iterations=n + 1,
+                                            saliency=None if sal is None else sal.copy())
+                post = m.predict(y)
+            gap = _top_gap(capp.seen)
+            if gap < 1e-4:
+                ctx.count('corr-cwmm-skipped:principal-eigenvalue-not-separated')
+                continue
+            kk, kv = capk.table()
+            lk, lv = capl.table()
+            args = (f'{n} {int(sal is not None)} {fb([1e-10])} {T(kk)} {T(kv)} {T(lk)} {T(lv)} {TC(y)} {T(init)}' + opt(sal))
+            tol = 1e-8 * 10.0 ** n / gap
+            w = m.complex_watson
+            fields = [m.weight, tu.projector(w.mode), w.concentration]
+            add('CWMMTrainer.fit', 'cwmm-fit ' + args, fields + [post, np.array(1.0)],
+                f'{n + 1} iterations, y {y.shape}, K={K}, eigen-gap {gap:.2g}', data, rtol=min(tol, 1e-4),
+                raw=[False, True, False, False, False], canon=canon_w)
+            if tiny_case:
+                add('cwmmTrainerFit-recursive', 'cwmm-fit-direct ' + args, fields, f'{n + 1} iterations, y {y.shape}, K={K}',
+                    data, rtol=min(tol, 1e-4), raw=[False, True, False], canon=canon_w)
+            ctx.count(f'corr-cwmm-it{n + 1}')
+    # ------------------------------------------------------------------ complex angular central Gaussian mixture
+    for i in range(ctx.n(10, 80)):
+        with _guarded(ctx, 'CACGMMTrainer'):
+            tiny_case = rng.random() < 0.2
+            lead, K, D, N, y, init, sal = _em_case(rng, tiny_case, True)
+            yn = CACG_.normalize_observation(y)                      # (..., D, N)
+            herm = bool(rng.integers(0, 2))
+            floor = float(rng.choice([1e-10, 1e-3]))
+            eps = float(rng.choice([1e-10, 1e-10, 0.0]))
+            data = {'y': y, 'initialization': init, 'saliency': sal, 'hermitize': herm, 'eigenvalue_floor': floor,
+                    'affiliation_eps': eps}
+
+            def canon_c(g):
+                return [g[0], tu.reconstruct(g[1], g[2])] + list(g[2:])
+
+            def fields_of(mm):
+                c = mm.cacg
+                return [mm.weight, tu.reconstruct(c.covariance_eigenvectors, c.covariance_eigenvalues), c.covariance_eigenvalues]
+
+            def cond_of(mm):
+                return float(1.0 / max(float(np.min(mm.cacg.covariance_eigenvalues)), 1e-300))
+            q0 = rng.random(lead + (K, N)) + 0.1
+            m0 = CACGMM_.CACGMMTrainer()._m_step(yn, q0, affiliation=init, saliency=sal, hermitize=herm,
+                                                 covariance_norm='eigenvalue', eigenvalue_floor=floor, weight_constant_axis=wca)
+            add('CACGMMTrainer._m_step', f'cacgmm-mstep {int(herm)} {int(sal is not None)} {fb([1e-10, floor])} {TC(yn)} {T(q0)} {T(init)}'
+                + opt(sal), fields_of(m0), f'y {y.shape}, K={K}, hermitize={herm}, floor={floor}', data,
+                rtol=[1e-8, 1e-8, min(1e-8 * max(1.0, 1e-6 * cond_of(m0)), 1e-4)], raw=[False, True, False], canon=canon_c)
+            y2 = CACG_.normalize_observation(tu.slice_contents(rng, lead, (N, D), complex_=True))
+            a2, q2, _ = m0._predict(y2, affiliation_eps=eps)
+            c0 = m0.cacg
+            add('CACGMM._predict', f'cacgmm-predict {int(eps != 0)} {fb([eps])} {T(m0.weight)} {TC(c0.covariance_eigenvectors)} '
+                f'{T(c0.covariance_eigenvalues)} {TC(y2)}', [a2, q2], f'model of one M-step, y {y2.shape}, K={K}, eps={eps}',
+                {**data, 'y2': y2}, rtol=min(1e-9 * max(1.0, cond_of(m0)), 1e-4))
+            n = int(rng.integers(0, 2)) if tiny_case else int(rng.integers(0, 3))
+            init_b = init
+            if rng.random() < 0.3:          # singleton leading axes of the initial affiliation (np.broadcast_to in fit)
+                keep = tuple(slice(0, 1) if rng.random() < 0.6 else slice(None) for _ in lead)
+                init_b = np.ascontiguousarray(init[keep])
+                ctx.count('corr-cacgmm-singleton-init')
+            m = CACGMM_.CACGMMTrainer().fit(y.copy(), initialization=init_b.copy(), iterations=n + 1,
+                                            saliency=None if sal is None else sal.copy(), hermitize=herm,
+                                            eigenvalue_floor=floor, affiliation_eps=eps)
+            post, qf = m.predict(y, return_quadratic_form=True)
+            cond = cond_of(m)
+            args = (f'{n} {int(herm)} {int(sal is not None)} {int(eps != 0)} {fb([eps, 1e-10, floor])} {TC(y)} {T(init_b)}' + opt(sal))
+            tol = min(1e-8 * 10.0 ** n * max(1.0, cond), 1e-4)
+            add('CACGMMTrainer.fit', 'cacgmm-fit ' + args, fields_of(m) + [post, qf],
+                f'{n + 1} iterations, y {y.shape}, init {init_b.shape}, K={K}, hermitize={herm}, floor={floor}, eps={eps}, '
+                f'1/min eigenvalue {cond:.2g}', {**data, 'initialization': init_b}, rtol=tol,
+                raw=[False, True, False, False, False], canon=canon_c)
+            if tiny_case:
+                add('cacgmmTrainerFit-recursive', 'cacgmm-fit-direct ' + args, fields_of(m),
+                    f'{n + 1} iterations, y {y.shape}, init {init_b.shape}, K={K}', {**data, 'initialization': init_b}, rtol=tol,
+                    raw=[False, True, False], canon=canon_c)
+            ctx.count(f'corr-cacgmm-it{n + 1}')
+
+
 def corr(ctx):
     rng = ctx.rng
     lines, metas = [], []
 
-    def add(op, line, want, detail, data=None, rtol=1e-9):
+    def add(op, line, want, detail, data=None, rtol=1e-9, raw=None, canon=None):
         lines.append(line)
-        metas.append((op, want, detail, data, rtol))
+        metas.append((op, want, detail, data, rtol, raw, canon))
 
     # (1) primitives against NumPy
     for line, want, desc in _prim_cases(rng, ctx.n(150, 3000)):
@@ -1154,7 +1391,9 @@ def corr(ctx):
                 add(f'gmmFit-recursive[{ct}]', 'gmmfit-direct ' + args, fields, f'{n + 1} iterations, y {y.shape}, K={K}',
                     {'y': y, 'initialization': init, 'saliency': sal}, rtol=min(tol, 1e-4))
             ctx.count(f'corr-gmmfit-{ct}-it{n + 1}')
+    # (8) the EM loops of the directional mixture trainers (vmfmmFit, cwmmFit, cacgmmFit of Model/TensorEm.lean)
+    _corr_em_mixtures(ctx, rng, add)
     out = run_driver(lines, exe='driver_tensor')
-    for (op, want, detail, data, rtol), o in zip(metas, out):
-        _cmp_tensor(ctx, op, o, want, detail, data, rtol=rtol)
+    for (op, want, detail, data, rtol, raw, canon), o in zip(metas, out):
+        _cmp_tensor(ctx, op, o, want, detail, data, rtol=rtol, raw=raw, canon=canon)
     ctx.sample({'corr-op': metas[-1][0], 'detail': metas[-1][2]})
